@@ -350,7 +350,7 @@ PROPS["C10"] = {
 }
 
 PROPS["C11"] = {
-    "lean": ["WsVerif.Props.C11", "WsVerif.Bridge.C11"],
+    "lean": ["WsVerif.Props.C11", "WsVerif.Props.C11Flat", "WsVerif.Bridge.C11"],
     "rule": "(pair) ws.Dialer.Upgrade wired to ws.Upgrader.Upgrade in-process (the request the dialer writes is fed to the upgrader over a "
             "chunked reader, its output back to the dialer over another): 9 dialer configurations (no/one/three subprotocols, "
             "permessage-deflate offers with and without parameters, a second extension with a quoted value, extra headers incl. a 200-byte "
@@ -381,9 +381,12 @@ PROPS["C11"] = {
                   "`upgrade_consumes_prefix`, C10.rest_preserved); Sec-WebSocket-Accept always has the 28 characters the client insists on; "
                   "for every server configuration without objecting callbacks and every client configuration the dialer's header lines pass "
                   "the upgrader, the key kept is the dialer's nonce, the 101 is chosen and its three lines pass the dialer (`pair_lines`, "
-                  "parsed-line level). PARTIAL: that the parsed lines are a function of the flat byte stream alone, and agreement with "
-                  "subprotocols/extensions in play, are decided by the correspondence run (model = implementation on the whole pair and "
-                  "chunking grids; distinct outcomes = 1), not by a theorem. The debugging wrappers are decided by the differential oracle "
+                  "parsed-line level). Chunking independence is a theorem (Props/C11Flat): readLine over bufio returns the bytes up to the first LF "
+                  "of the FLAT stream whatever the chunking, the buffer size and whether the last bytes arrive with the end of the stream "
+                  "(`readLine_spec`, for transports that never return (0, nil)); hence handshake, error, every byte written and what stays "
+                  "readable are functions of the flat request / response bytes (`upgrade_flat`, `dialerUpgrade_flat`). PARTIAL: agreement of "
+                  "the two peers with subprotocols/extensions in play is decided by the correspondence run (model = implementation on the "
+                  "whole pair), not by a theorem. The debugging wrappers are decided by the differential oracle "
                   "only. The unchanged tree violated the property: F15 (DebugDialer with OnResponse panics when the dial fails) and F19 "
                   "(for a response with bare-LF line ends, which Dialer accepts, DebugDialer reported 'HTT' as the response and replayed the "
                   "head as post-handshake bytes) - repaired by fix commit eb9e34f.",
